@@ -639,7 +639,45 @@ def srp_constants(out):
     if len(users) != 1:
         raise Shape("SrpClient username literal")
     d["USERNAME"] = users[0]
-    out["Srp"] = {k: (str(v) if isinstance(v, int) and v > 2 ** 64 else v) for k, v in d.items()}
+    # the integer arithmetic of the client: statements of SrpClient.get_shared_secret (after the guard) and the public key
+    def arith(e):
+        if isinstance(e, ast.Name):
+            return ("var", e.id)
+        if isinstance(e, ast.Attribute) and isinstance(e.value, ast.Name) and e.value.id == "self":
+            return ("var", "self." + e.attr)
+        if isinstance(e, ast.BinOp) and isinstance(e.op, (ast.Add, ast.Sub, ast.Mult, ast.Mod)):
+            return ({ast.Add: "add", ast.Sub: "sub", ast.Mult: "mul", ast.Mod: "mod"}[type(e.op)], arith(e.left), arith(e.right))
+        if isinstance(e, ast.Call) and getattr(e.func, "id", "") == "pow" and len(e.args) == 3 and not e.keywords:
+            return ("powmod",) + tuple(arith(a) for a in e.args)
+        if isinstance(e, ast.Call) and isinstance(e.func, ast.Attribute) and isinstance(e.func.value, ast.Name) and e.func.value.id == "self" and not e.args and not e.keywords:
+            return ("call", "self." + e.func.attr)
+        if isinstance(e, ast.Constant) and isinstance(e.value, int) and not isinstance(e.value, bool):
+            return ("lit", e.value)
+        raise Shape("srp arithmetic: unsupported expression " + ast.dump(e)[:80])
+    gs = func(cls, "get_shared_secret")
+    body = list(gs.body)
+    if body and isinstance(body[0], ast.Expr) and isinstance(body[0].value, ast.Constant):
+        body = body[1:]
+    if not (body and isinstance(body[0], ast.If) and isinstance(body[0].body[0], ast.Raise) and not body[0].orelse):
+        raise Shape("get_shared_secret: guard")
+    stmts = []
+    ret = None
+    for st in body[1:]:
+        if isinstance(st, ast.Assign) and len(st.targets) == 1 and isinstance(st.targets[0], (ast.Name, ast.Attribute)):
+            stmts.append((arith(st.targets[0])[1], arith(st.value)))
+        elif isinstance(st, ast.Return) and st.value is not None and ret is None:
+            ret = arith(st.value)
+        else:
+            raise Shape("get_shared_secret: statement " + ast.dump(st)[:80])
+    if ret is None:
+        raise Shape("get_shared_secret: no return")
+    init = func(cls, "__init__")
+    pubs = [arith(st.value) for st in init.body if isinstance(st, ast.Assign) and isinstance(st.targets[0], ast.Attribute) and st.targets[0].attr == "A"]
+    if len(pubs) != 1:
+        raise Shape("SrpClient.__init__: self.A")
+    d["_arith"] = {"stmts": stmts, "ret": ret, "pub": pubs[0]}
+    out["Srp"] = {k: (str(v) if isinstance(v, int) and v > 2 ** 64 else v) for k, v in d.items() if not k.startswith("_")}
+    out["Srp"]["arith"] = d["_arith"]
     out["_srp_raw"] = d
 
 
@@ -877,7 +915,22 @@ def emit_srp(out, files):
     L = ["/-! GENERATED by tools/translate.py from crypto/srp.py - do not edit. -/", "namespace HapVerif.Gen.Srp",
          f"def N : Nat := {d['MODULUS_VALUE']}", f"def g : Nat := {d['GENERATOR_VALUE']}", f"def k : Nat := {d['CLIENT_K_VALUE']}",
          f"def keyLen : Nat := {d['HK_KEY_LENGTH']}", f"def saltLen : Nat := {d['SALT_LENGTH']}", f"def username : String := {lean_str(d['USERNAME'])}",
-         "end HapVerif.Gen.Srp"]
+         "", "/-- integer expressions of the client as written in the source -/",
+         "inductive E", "  | var (name : String)", "  | lit (n : Nat)", "  | call (name : String)", "  | add (a b : E)", "  | sub (a b : E)", "  | mul (a b : E)",
+         "  | mod (a b : E)", "  | powmod (b e m : E)", "  deriving Repr", ""]
+
+    def E(t):
+        if t[0] in ("var", "call"):
+            return f"(.{t[0]} {lean_str(t[1])})"
+        if t[0] == "lit":
+            return f"(.lit {t[1]})"
+        return "(." + t[0] + " " + " ".join(E(x) for x in t[1:]) + ")"
+    a = d["_arith"]
+    L += ["/-- `SrpClient.get_shared_secret`: the assignments after the guard, in source order, and the returned expression -/",
+          "def sharedSecretStmts : List (String × E) :=", "  [" + ",\n   ".join(f"({lean_str(n)}, {E(e)})" for n, e in a["stmts"]) + "]",
+          f"def sharedSecretRet : E := {E(a['ret'])}",
+          "/-- `SrpClient.__init__`: `self.A = ...` -/", f"def publicKey : E := {E(a['pub'])}",
+          "end HapVerif.Gen.Srp"]
     files["Srp.lean"] = "\n".join(L) + "\n"
 
 
